@@ -174,6 +174,23 @@ fn well_formed(apts: &[Apt]) -> Vec<WellFormed> {
     v
 }
 
+/// (scheme, endpoint text) of an address, whichever of its documented forms it is held in
+fn endpoint(a: &Address) -> Option<(String, String)> {
+    let v = serde_json::to_value(a).ok()?;
+    let (scheme, val) = v.as_object()?.iter().next()?;
+    let text = match val {
+        Value::String(s) => s.clone(),
+        Value::Null => String::new(),
+        Value::Object(o) => match (o.get("url"), o.get("address"), o.get("port")) {
+            (Some(Value::String(u)), _, _) => u.clone(),
+            (_, Some(Value::String(h)), Some(p)) => format!("{h}:{p}"),
+            _ => val.to_string(),
+        },
+        other => other.to_string(),
+    };
+    Some((scheme.clone(), text))
+}
+
 fn pos_close(a: (f64, f64), b: (f64, f64)) -> bool {
     (a.0 - b.0).abs() < 1e-9 && (a.1 - b.1).abs() < 1e-9
 }
@@ -188,7 +205,8 @@ fn check_well_formed(w: &WellFormed, rep: &Report, outcomes: &mut BTreeMap<Strin
             return;
         }
     };
-    if src.address != w.expect {
+    // compare the endpoints, not their representation (short string or address/port table)
+    if endpoint(&src.address) != endpoint(&w.expect) {
         rep.violation("well-formed:endpoint", format!("{:?} parsed to {:?}, expected {:?}", w.spec, src.address, w.expect), wit.clone());
     }
     match (w.reference, src.reference) {
